@@ -11,7 +11,7 @@ namespace glm
 	template <typename T>
 	inline T levels(T Extent)
 	{
-		return vec<1, T, defaultp>(Extent).x;
+		return levels(vec<1, T, defaultp>(Extent));
 	}
 }//namespace glm
 
